@@ -208,7 +208,13 @@ def out_rules(F, rep):
             outs.append((f, t))
         elif f.kind != "closure":
             ex = Exprs(f)
-            cands = [L for L in for_loops(f, ex) if any(_mentions_const(f.blocks[b], symbols.CNV) for b in L["body"])]
+            proms = [int(k2.rsplit("#", 1)[1].rstrip("}")) for k2, f2 in F.funcs.items() if k2.startswith(f.key + "::{promoted#") and
+                     any(_mentions_const(b, symbols.CNV) for b in f2.blocks)]
+
+            def mentions(b):
+                r = repr(b["stmts"]) + repr(b["term"])
+                return symbols.CNV in r or any(("'promoted': %d" % n) in r for n in proms)
+            cands = [L for L in for_loops(f, ex) if any(mentions(f.blocks[b]) for b in L["body"])]
             cands.sort(key=lambda L: len(L["body"]))
             for L in cands[:1]:        # the innermost loop that consults the table
                 try:
